@@ -1122,6 +1122,10 @@ class FormulaManager(object):
                 if assigned_values[k] != default:
                     args.append(k)
                     args.append(assigned_values[k])
+                elif self.env.stc.get_type(k) != idx_type:
+                    # The dropped assignment is not seen by the type-checker
+                    raise PysmtTypeError("Array initialization index '%s' is "
+                                         "not of type %s" % (str(k), idx_type))
         return self.create_node(node_type=op.ARRAY_VALUE, args=tuple(args),
                                 payload=idx_type)
 
